@@ -32,7 +32,31 @@ Proof.
   destruct (write_idem_meshfile d ks d' fs W US SK XP' CH WB WC ID USX T1 T2) as [d'' [fs' [m [m' R]]]].
   exists d', fs, d'', fs', m, m'. split; [reflexivity|exact R].
 Qed.
-Example example_tough2_mesh_idem : idem_mesh_hyps true (drop_short example_tough2) (no_mesh example_tough2_order) = true.
+(** ... and of the byte-for-byte part *)
+Definition idem_mesh_hyps2 (strict : bool) (d : t2d) (ks : list string) : bool :=
+  let X := mesh_state d (reread d ks) in let X2 := reread X ks in let Y := mesh_state X X2 in
+  idem_mesh_hyps strict d ks && chain_ok X ks (start_state X) &&
+  forallb (wf_block T0 (rocks X2)) (blocks X) && forallb (wf_conn T0 (canon_blocks T0 (blocks X))) (conns X) &&
+  idem_mesh_ok X ks && strs_eqb (update_sections Y) (sections Y).
+Theorem write_fixpoint_meshfile_checked strict d ks : idem_mesh_hyps2 strict d ks = true ->
+  let X := mesh_state d (reread d ks) in let Y := mesh_state X (reread X ks) in
+  exists d'' fs' d3 fs'', write_files (mk_wcfg 1 None None) X = Ok (d'', fs') /\ write_files (mk_wcfg 1 None None) Y = Ok (d3, fs'') /\
+    f_main fs'' = f_main fs' /\ f_mesh fs'' = f_mesh fs' /\ f_pdat fs'' = f_pdat fs'.
+Proof.
+  unfold idem_mesh_hyps2. cbv zeta. intro H. apply andb_prop in H as [H USY]. apply andb_prop in H as [H IDX]. apply andb_prop in H as [H WCX].
+  apply andb_prop in H as [H WBX]. apply andb_prop in H as [H CHX]. apply strs_eqb_eq in USY.
+  unfold idem_mesh_hyps in H. cbv zeta in H. destruct (write_files (mk_wcfg 1 None None) d) as [[d' fs]|] eqn:W; [|discriminate].
+  apply andb_prop in H as [H S2]. apply andb_prop in H as [H S1]. apply andb_prop in H as [H USX]. apply andb_prop in H as [H ID].
+  apply andb_prop in H as [H WC]. apply andb_prop in H as [H WB]. apply andb_prop in H as [H CH]. apply andb_prop in H as [H XP].
+  apply andb_prop in H as [US SK]. apply strs_eqb_eq in US, SK, USX.
+  assert (XP' : xprec d = []) by (destruct (xprec d); [reflexivity|discriminate]).
+  assert (T1 : Forall (istable T0) (prog_file d ks)) by (rewrite forallb_forall in S1; apply Forall_forall; intros it I; apply (item_ok_spec strict); apply S1; exact I).
+  assert (T2 : Forall (istable T0) (mesh_prog d)) by (rewrite forallb_forall in S2; apply Forall_forall; intros it I; apply (item_ok_spec strict); apply S2; exact I).
+  exact (write_fixpoint_meshfile d ks d' fs W US SK XP' CH WB WC ID USX T1 T2 CHX WBX WCX IDX USY).
+Qed.
+Example example_tough2_mesh_idem : idem_mesh_hyps2 true (drop_short example_tough2) (no_mesh example_tough2_order) = true.
 Proof. vm_compute. reflexivity. Qed.
-Example example_autough2_mesh_idem : idem_mesh_hyps true (drop_short example_autough2) (no_mesh example_autough2_order) = true.
+Example example_autough2_mesh_idem : idem_mesh_hyps2 true (drop_short example_autough2) (no_mesh example_autough2_order) = true.
 Proof. vm_compute. reflexivity. Qed.
+Lemma idem_mesh_hyps2_1 strict d ks : idem_mesh_hyps2 strict d ks = true -> idem_mesh_hyps strict d ks = true.
+Proof. unfold idem_mesh_hyps2. cbv zeta. intro H. do 5 (apply andb_prop in H as [H _]). exact H. Qed.
